@@ -178,6 +178,8 @@ def esc_he_cases(ctx, n):
 
 INNER = ('num-then-heading', 'item-num-then-heading')     # positions that are not at the edge of a line: edge whitespace is payload there
 
+LEADS = ['-', '- x', '\u2022 x', '\u2022', '* x', '\u2013 x', '\u2014 x', '\u00b7 x', '\u2023 x', '\u25e6 x', '1. x', '(a) x', '# x', '> x', '+ x', '-x', '\u2022x', '"x', '.x', ':x']
+
 def cases(ctx, n):
     out = []
     names = sorted(POSITIONS)
@@ -187,6 +189,11 @@ def cases(ctx, n):
         if pos in INNER and ctx.rng.random() < 0.5:
             s = s + ctx.rng.choice([' ', '  ', '\u00a0'])
         out.append((pos, s, ctx.rng.choice(['act', 'act', 'doc', 'bill'])))
+    # on every run, whatever the random stream does: every position x texts that begin like list markup in other notations (a dash, a
+    # bullet glyph, a number, a quote mark) - escaped, they are the first characters of the text
+    for pos in names:
+        for s in LEADS:
+            out.append((pos, s, 'act'))
     return out
 
 def correspondence(ctx):
